@@ -34,7 +34,7 @@ FOCUS = {
     "C03": dict(p_read=0.4, handles=0.15, weights={"update": 8, "update_all": 3, "remove": 1, "fail": 0.0}),
     "C06": dict(p_read=0.45, handles=0.1, weights={"negfield": 0.3, "remove": 5, "remove_all": 2, "reindex": 2, "insert_multiple": 3, "fail": 0.15, "bad": 0.3}),
     "C07": dict(p_read=0.65, handles=0.3, weights={"remove": 5, "drop": 1, "update": 2, "reads": [
-        "all", "len", "iter", "get_measurements", "get_tag_keys", "get_tag_values", "get_field_keys", "get_field_values",
+        "all", "len", "iter", "repr", "get_measurements", "get_tag_keys", "get_tag_values", "get_field_keys", "get_field_values",
         "get_timestamps", "get_tag_keys", "get_tag_values", "get_field_keys", "get_field_values", "get_timestamps", "count"]}),
     "C10": dict(p_read=0.5, handles=0.9, weights={"remove": 5, "drop": 3, "update": 4, "update_all": 2, "negfield": 0.4}),
     "C11": dict(p_read=0.45, handles=0.2, weights={"update": 7, "update_all": 3, "insert_multiple": 5, "fail": 0.7, "bad": 0.6}),
@@ -63,24 +63,67 @@ def design_check(thorough, alpha="mc"):
     return states, trans, cmd
 
 
+NONE_ = concretise.NONE
+
+
 def random_jobs(pid, n, seed, length):
     f = FOCUS[pid]
     jobs = []
     for i in range(n):
         hostile = i % 3 == 2           # a third of the histories use CSV-hostile strings (line breaks, delimiters, quotes)
-        rand = i % 6 == 1              # a sixth use value tables drawn at random (themes._random_tables): the verdict must not
+        rand = not hostile and i % 7 == 1       # a seventh (the moduli are coprime to the 4 configurations) use value tables drawn at random (themes._random_tables): the verdict must not
         #                                depend on which order-isomorphic values stand for the ranks
         g = gen.Gen(seed * 1000003 + i * 7919 + int(pid[1:]) * 131, ntk=NTK, nfk=NFK, focus=f["weights"], handles=f["handles"],
                     regex=not (hostile or rand))
         kind, ai = traces.CONFIGS[i % 4]
         ops = g.history(g.r.choice(length), p_read=f["p_read"])
         opts = {"theme": "csv-hostile"} if hostile else ({"theme": "random:%d" % (seed * 100000 + i)} if rand else {})
+        if not hostile and not rand and i % 13 == 4:
+            opts = {"theme": "bigint"}        # numbers: integers beyond 2**53 next to one another (regex tables as in the plain theme)
         jobs.append(("r%d" % i, kind, ai, ops, g.battery(), NTK, NFK, opts))
     for i in range(max(40, n // 10)):          # batches that are unordered within themselves (see gen.batch_scenario)
         g = gen.Gen(seed * 7771 + i * 13 + int(pid[1:]), ntk=NTK, nfk=NFK, focus=f["weights"], handles=0.0)
         kind, ai = traces.CONFIGS[(i % 3) if i % 4 else 1]      # mostly auto_index on
-        jobs.append(("bs%d" % i, kind, ai, g.batch_scenario(), g.battery(3), NTK, NFK))
-        jobs.append(("sr%d" % i, kind, ai, g.scan_remove_scenario(), g.battery(3), NTK, NFK))
+        opts = {}
+        if i % 5 == 2:                          # integers beyond 2**53 (CSV: what the file holds must be read back exactly)
+            opts, kind, ai = {"theme": "bigint"}, "csv", (i // 5) % 2
+        elif i % 5 == 4:
+            opts = {"theme": "random:%d" % (seed * 100000 + 50000 + i)}
+        fix = gen.deregex if "random" in opts.get("theme", "") else (lambda x: x)
+        jobs.append(("bs%d" % i, kind, ai, fix(g.batch_scenario()), fix(g.battery(3)), NTK, NFK, opts))
+        jobs.append(("sr%d" % i, kind, ai, fix(g.scan_remove_scenario()), fix(g.battery(3)), NTK, NFK, opts))
+    for i in range(4):                         # databases that are not small: a few hundred points already stored (CSV: beyond one 8 KiB buffer)
+        g = gen.Gen(seed * 6007 + i * 29 + int(pid[1:]), ntk=NTK, nfk=NFK, focus=f["weights"], handles=f["handles"])
+        kind, ai = traces.CONFIGS[i % 4]
+        n0 = 150 + 60 * i
+        pre = [g.point(t=min(gen.NT - 1, k * gen.NT // n0)) for k in range(n0)]
+        jobs.append(("big%d" % i, kind, ai, g.history(10, p_read=f["p_read"]), g.battery(2), NTK, NFK, {"prefill": True, "prefill_points": pre}))
+    for i in range(2):                         # batches of several hundred points in one insert_multiple call (list / iterator), one of them
+        #                                        ending in a non-Point element
+        g = gen.Gen(seed * 4001 + i * 31 + int(pid[1:]), ntk=NTK, nfk=NFK, focus=f["weights"], handles=0.0)
+        kind, ai = traces.CONFIGS[(2 * i + seed) % 4]
+        n1, n2 = 520 + 7 * i, 300 + 5 * i
+        ops = [{"op": "insert", "p": g.point(0), "m": NONE_, "compact": 0},
+               {"op": "insert_multiple", "ps": [g.point(t=min(gen.NT - 4, k * gen.NT // n1)) for k in range(n1)], "m": NONE_, "bad": 0},
+               {"op": "count", "q": g.atom(), "m": NONE_},
+               {"op": "len", "m": NONE_},
+               {"op": "insert_multiple", "ps": [g.point(t=gen.NT - 3) for k in range(n2)], "m": NONE_, "bad": 1},
+               {"op": "all", "m": NONE_, "sorted": 0},
+               {"op": "count", "q": g.atom(), "m": NONE_},
+               {"op": "insert_multiple", "ps": [g.point(t=gen.NT - 2) for k in range(n2)], "m": NONE_, "bad": 0},
+               {"op": "len", "m": NONE_}]
+        jobs.append(("bb%d" % i, kind, ai, ops, g.battery(2), NTK, NFK))
+    if pid == "C07":                           # a CSV file well beyond 64 KiB full of quoted multi-line values; lengths and getters from storage
+        for i in range(2):
+            g = gen.Gen(seed * 911 + i, ntk=NTK, nfk=NFK, focus=f["weights"], handles=0.0, regex=False)
+            n0 = 1500 + 100 * i
+            pre = [g.point(t=min(gen.NT - 1, k * gen.NT // n0)) for k in range(n0)]
+            for p in pre:
+                p["tg"][0] = [2, 3, 4][p["t"] % 3]          # (csv-hostile strings with CR/LF inside quotes)
+            ops = [{"op": "len", "m": NONE_}, {"op": "len", "m": 1, "via": "handle"},
+                   {"op": "insert", "p": g.point(gen.NT - 1), "m": NONE_, "compact": 0}, {"op": "len", "m": NONE_},
+                   {"op": "get_measurements"}, {"op": "iter", "m": 2, "via": "handle"}]
+            jobs.append(("huge%d" % i, "csv", i % 2, ops, g.battery(1), NTK, NFK, {"theme": "csv-hostile", "prefill": True, "prefill_points": pre}))
     if pid in ("C03", "C11"):                  # one Point object stored several times, then failing updates (gen.alias_scenario)
         for i in range(max(24, n // 20)):
             g = gen.Gen(seed * 9973 + i * 17 + int(pid[1:]), ntk=NTK, nfk=NFK, focus=f["weights"], handles=0.0)
